@@ -48,7 +48,10 @@ type c07Case struct {
 }
 
 var c07Hosts = []string{"a.mitm.example:443", "b.mitm.example:443", "A.MiTm.Example:443", "c.mitm.example:8443", "d.mitm.example:443", "e.mitm.example:443",
-	"10.0.1.1:443", "10.0.1.1:8443", "[fd00::1]:443", "[fd00::1]:8443", "excluded.mitm.example:443", "keepout.other.example:443", "f.mitm.example:443", "g.mitm.example:443"}
+	"10.0.1.1:443", "10.0.1.1:8443", "[fd00::1]:443", "[fd00::1]:8443", "excluded.mitm.example:443", "keepout.other.example:443", "f.mitm.example:443", "g.mitm.example:443",
+	// names longer than the 64 characters a certificate's common name may hold (a DNS name may have 253)
+	strings.Repeat("x", 30) + "." + strings.Repeat("y", 22) + ".mitm.example:443",
+	strings.Repeat("l", 60) + "." + strings.Repeat("m", 60) + "." + strings.Repeat("n", 60) + "." + strings.Repeat("o", 50) + ".mitm.example:443"}
 
 func genC07(t *tape.Tape, tier string) any {
 	c := &c07Case{}
